@@ -19,7 +19,8 @@ func init() {
 			"(R3) in the reader, the call completed, the call whose NewResponse() is unmarshalled into and the call whose DeserializeCellBlocks runs are the one value returned by unregisterRPC(*header.CallId); " +
 			"(R4) the multi action index: writer stores uint32(i)+K1 for position i of m.calls, reader returns m.calls[j-K2] and rejects 0, K1 == K2 == 1, and nothing reorders m.calls (writers of the slice are append, index-preserving nil-out, and the pool reset); " +
 			"(R5) the region of a region action and m.regions[i] are stored with the same index in the same iteration, and a region exception is delivered exactly to the calls whose Region() equals m.regions[i]; " +
-			"(R6) cellblock cursor discipline: in every decoder that hands a shared cellblock to nested decoders, each nested call gets b[cursor:] and the cursor advances by exactly what that call returned, on the nil-error path.",
+			"(R6) cellblock cursor discipline: in every decoder that hands a shared cellblock to nested decoders, each nested call gets b[cursor:] and the cursor advances by exactly what that call returned, on the nil-error path." +
+			" Added after the seeded-change rounds: (R6) Get/Mutate.DeserializeCellBlocks report exactly the count their nested decoder read (0 only where the response has no Result), with the count taken from Result.GetAssociatedCellCount(); the result lists of a multi response are only ranged over, indexed or measured before they are consumed (never sorted, stored or passed on); (R7) the positional rules of C07 (slot stores indexed by the original position) are run here as one rule.",
 		Residue:   "adversarial server orderings; equality of payloads (value level)",
 		Technique: "value provenance over SSA (same-value checks), who-writes tables, constant extraction, cursor-idiom detection",
 		Run:       runC02,
